@@ -47,6 +47,17 @@ class C14(Prop):
             layout = {"records": [{"name": n, "desc": "", "seq": "A" * 50} for n in ("a", "b")]}
             yield {"gen": "reverse", "kind": "reverse", "rows": gen_rows_over(rng, layout, rng.randint(0, 10)),
                    "extra": gen_rows_over(rng, layout, rng.randint(1, 3))}
+        for _ in range(80 if tier == "quick" else 1000):
+            # OverlapResult.to_scaffold: the same region of the same indexed assembly looked up on both strands
+            # (a scaffold shown in the map and, flipped, in a second map): one is the reversal of the other
+            from .. import pipeline_util as P
+
+            inp = P.gen_input(rng, style=rng.choice(["tpf", "fasta"]), nscaf=rng.randint(1, 3))
+            sc = rng.choice(inp["scaffolds"])
+            n = P.sc_len(sc)
+            a = rng.randint(1, n)
+            yield {"gen": "lookup", "kind": "lookup", "input": inp, "name": sc["name"], "start": a, "end": rng.randint(a, n),
+                   "order": rng.choice([[1, -1], [-1, 1], [1, -1, 1]])}
         for _ in range(150 if tier == "quick" else 2000):
             n = rng.choice([0, 1, 2, 3, 10, 40])
             alpha = rng.choice([F.RES_MIX, "ACGT", "".join(chr(c) for c in range(33, 127))])
@@ -75,6 +86,19 @@ class C14(Prop):
 
     def run_impl(self, case):
         k = case["kind"]
+        if k == "lookup":
+            from tola.assembly.fragment import Fragment
+            from tola.assembly.indexed_assembly import IndexedAssembly
+
+            ia = IndexedAssembly.new_from_assembly(A.assembly_to_obj(case["input"], "in"))
+            out = {}
+            for st in case["order"]:
+                try:
+                    r = ia.find_overlaps(Fragment(case["name"], case["start"], case["end"], st))
+                    out[str(st)] = None if r is None else [A.obj_to_row(x) for x in r.to_scaffold().rows]
+                except Exception as e:
+                    out[str(st)] = {"err": type(e).__name__}
+            return out
         if k == "table":
             return {"table": list(bytes(range(256)).translate(IUPAC_COMPLEMENT))}
         if k == "reverse":
@@ -144,6 +168,8 @@ class C14(Prop):
 
     def term(self, case, obs):
         k = case["kind"]
+        if k == "lookup":
+            return []   # oracle only (find_overlaps itself is compared with the model in C12 / C18)
         if k == "table":
             return lambda names: "CTable " + listlit(obs["table"], lambda n: f"{n}%N")
         if k == "reverse":
@@ -166,6 +192,19 @@ class C14(Prop):
 
     def oracle(self, case, obs):
         k = case["kind"]
+        if k == "lookup":
+            p, m = obs["1"], obs["-1"]
+            if isinstance(p, dict) or isinstance(m, dict):
+                return f"lookup raised: {p if isinstance(p, dict) else m}"
+            if (p is None) != (m is None):
+                return "the same region is found on one strand and not on the other"
+            if p is None:
+                return None
+            want = [r if r[0] == "G" else [r[0], r[1], r[2], r[3], -r[4], r[5]] for r in reversed(p)]
+            if m != want:
+                return (f"to_scaffold of the minus-strand lookup of {case['name']}:{case['start']}-{case['end']} is not the "
+                        f"reversal of the plus-strand one (asked in the order {case['order']}): {m} vs {want}")
+            return None
         if k == "table":
             t = obs["table"]
             want = list(range(256))
@@ -237,7 +276,7 @@ class C14(Prop):
 
     def shrink_candidates(self, case):
         if case["kind"] != "streamrev":
-            return
+            return []
         rows = case["rows"]
         for j in range(len(rows)):
             if len(rows) > 1:
